@@ -29,7 +29,7 @@ func (c18) Plan(tier string) []core.Segment {
 	return []core.Segment{
 		{Gen: "spec", Count: gen.CorpusSize(), Exhaustive: true},
 		{Gen: "lines", Profile: "default", Count: scale(tier, 200_000, 1_200_000)},
-		{Gen: "limits", Profile: "default", Count: scale(tier, 6_000, 100_000), Desc: "documents on numeric thresholds: 999-character labels, 9-digit list numbers, reference digit counts, scheme and domain lengths, line endings on the 8 KiB read window, indentation columns, long runs, deep nesting"},
+		{Gen: "limits", Profile: "default", Count: scale(tier, 2_000, 50_000), Desc: "documents on numeric thresholds: 999-character labels, 9-digit list numbers, reference digit counts, scheme and domain lengths, line endings on the 8 KiB read window, indentation columns, long runs, deep nesting"},
 		{Gen: "inlinex", Profile: "default", Count: scale(tier, 50_000, 1_000_000), Desc: "well-formed inline trees whose delimiter tokens were deleted, duplicated, moved, swapped or respelled: constructs crossing each other's boundaries"},
 		{Gen: "modeldoc", Profile: "full", Count: scale(tier, 20_000, 600_000), Desc: "Markdown of model documents: nested containers, structural tabs, laziness, multi-line inline constructs"},
 		{Gen: "modeldoc", Profile: "deep", Count: scale(tier, 2000, 60000), Desc: "Markdown of model documents: nested containers, structural tabs, laziness, multi-line inline constructs", Batch: 2000},
